@@ -15,7 +15,11 @@
 
 package quickfix
 
-import "github.com/quickfixgo/quickfix/internal"
+import (
+	"bytes"
+
+	"github.com/quickfixgo/quickfix/internal"
+)
 
 type resendState struct {
 	loggedOn
@@ -45,6 +49,16 @@ func (s resendState) FixMsgIn(session *session, msg *Message) (nextState session
 
 	if !nextState.IsLoggedOn() {
 		return
+	}
+
+	// A Logon that resets the sequence numbers ends the recovery: the range that was requested and the
+	// messages kept so far belong to the numbering that has just been abandoned. Handing a kept message
+	// over under the same number of the new numbering would displace the message that really carries it.
+	if msgType, err := msg.Header.GetBytes(tagMsgType); err == nil && bytes.Equal(msgType, msgTypeLogon) {
+		var resetSeqNumFlag FIXBoolean
+		if err := msg.Body.GetField(tagResetSeqNumFlag, &resetSeqNumFlag); err == nil && resetSeqNumFlag.Bool() {
+			return
+		}
 	}
 
 	// Deliver kept messages that have become next in sequence, also inside the
